@@ -176,7 +176,13 @@ def check_throw(ctx, geom, cfg, n, stream, ci):
         ret = geom(n, store=store)
     beta_r, theta_r, L_r, vt_r = ret
     nads = np.asarray(geom.sourceNadRad, dtype=np.float64)
-    R, D = float(geom.earth_radius), float(geom.core_alt)
+    # the triangle is the one of the CONFIGURED detector: Earth radius (nominal equatorial, the value the simulator uses everywhere)
+    # plus the configured altitude — not whatever distance the object under test holds
+    R = float(geom.earth_radius)
+    D = R + float(cfg.detector.initial_position.altitude)
+    if not relclose(float(geom.core_alt), D, 1e-12):
+        ctx.violation("RegionGeomToO.__init__", "detector-distance", f"distance of the detector from the Earth's centre is {float(geom.core_alt)!r} km, not Earth radius + configured altitude = {D!r} km",
+                      {"latitude_rad": float(cfg.detector.initial_position.latitude), "altitude_km": float(cfg.detector.initial_position.altitude), "core_alt": float(geom.core_alt)})
     limb = float(cfg.simulation.angle_from_limb)
     case = {"stream": stream, "cfg": ci, "N": n, "T": T, "RA": cfg.simulation.target.source_RA, "Dec": cfg.simulation.target.source_DEC,
             "date": cfg.simulation.target.source_date, "det": [cfg.detector.initial_position.latitude, cfg.detector.initial_position.longitude,
@@ -406,11 +412,13 @@ def part_throw(ctx, nss, RegionGeomToO):
         if not np.allclose(nm, np.asarray(geom.sourceNadRad)[:20], rtol=0, atol=1e-12):
             ctx.disagree("C13.nadir_from_alt", {"cfg": ci})
         # ---- boundary stream: generated altitudes instead of astropy's
-        aH = float(geom.alphaHorizon)
+        R_c = float(geom.earth_radius)
+        D_c = R_c + float(cfg.detector.initial_position.altitude)      # the configured detector, not the object's own distance
+        aH = float(np.arcsin(R_c / D_c))
         limb = float(cfg.simulation.angle_from_limb)
         specials = [aH, aH - limb, 0.0, np.pi, aH / 2, 1e-12, 1e-300]
         with np.errstate(all="ignore"):
-            b42 = float(np.arcsin(np.cos(np.radians(42.0)) * geom.earth_radius / geom.core_alt))  # nadir whose beta is ~42 deg
+            b42 = float(np.arcsin(np.cos(np.radians(42.0)) * R_c / D_c))  # nadir whose beta is ~42 deg
         specials += [b42]
         nadv = []
         for s in specials:
